@@ -171,7 +171,8 @@ class G:
             rdocs = [ResultDocstring(type=None, description=rng.choice(["", "The result.", "All of x/*/y.\n*/"]), name=rng.choice(["", "named_res"]))
                      for _ in range(rng.randrange(1, 3))]
         doc = FunctionDocstring(description=rng.choice(["", "", f"Doc of {n}.", f"Doc of {n}.\n\nMore.", f"Doc of {n} with */ inside.\n/* and */"]), full_docstring="",
-                                examples=rng.choice([[], [], [">>> a = 1\n>>> b >>> 2\n... c\nout"]]))
+                                examples=rng.choice([[], [], [">>> a = 1\n>>> b >>> 2\n... c\nout"],
+                                                     [">>> glob.glob('src/*/test_*.py')\n... # */ and /* too\n['src/a/test_b.py']"]]))
         return Function(id=fid, name=n, docstring=doc, is_public=rng.random() < 0.85, is_static=static, is_class_method=classm,
                         is_property=prop, result_docstrings=rdocs, type_var_types=tvs, results=results,
                         reexported_by=reexported_by or [], parameters=ps)
